@@ -1,5 +1,6 @@
 import NxModel.Api.Effects
 import NxModel.Api.Legacy
+import NxModel.Api.Wire
 import NxModel.DriverUtil
 /-! line-protocol driver for the C20 models (settings, setting effects, nnas / nasc / hpp request builders)
 
@@ -14,6 +15,10 @@ import NxModel.DriverUtil
   nnas calls also: svctoken <s:tok> <s:client_id> | profile <s:tok> | miis <ln:1,2> | pids <ls:hex,hex> | nnids <ln:…>
   nnasfields <setter>                            -> h:<namehex>=<valuehex> … l:<namehex>=<valuehex> …   (documented headers; l = login only) | -
   nascfields <setter>                            -> f:<namehex>=<rawhex> … h:<namehex>=<valuehex> …     (documented form fields before base64 / headers) | -
+  wire <v0|v1|v2|lite> <client minor> <server minor> <hdr 0|1> <pid size> <nex version> <client version>
+       <userhex> <tokenhex> <mainurlhex> <specialurlhex> <time> <tickethex> <pid of login> <source> <target> <pid of get_name>
+                                                 -> minor=<n> hdr=<0|1> backend=<method>:<hex> loginex=<hex> ticket=<hex> getname=<hex> resplogin=<hex> respticket=<hex>
+                                                    (bodies an RMCClient of that connection writes with the caller's nex.* settings; `err <E>` in place of a hex)
   pyval: i<int> s<hex> T F N ;  setter: name(arg;arg;…) with args n:<dec> s:<hex> b:<hex> none
 -/
 open Nx Nx.Http Nx.Api
@@ -298,9 +303,35 @@ def runObjSeq (st : St) (ops : List String) : String :=
   | some (_, outs) => ";".intercalate outs
   | Option.none => "bad-op"
 
+/-! the nex.* settings at the RMC layer (NxModel/Api/Wire.lean) -/
+def showEx : Except Err Bytes → String
+  | .ok b => hexOut b
+  | .error e => "err:" ++ e.name
+
+def parseKind : String → Option Wire.Kind
+  | "v0" => some .v0 | "v1" => some .v1 | "v2" => some .v2 | "lite" => some .lite | _ => Option.none
+
+def runWire (toks : List String) : Option String :=
+  match toks with
+  | [kind, cmin, smin, hdr, pid, ver, cver, user, token, main, special, time, ticket, p7, p1, p2, p3] => do
+    let kind ← parseKind kind
+    let cmin ← cmin.toNat?; let smin ← smin.toNat?; let hdr ← hdr.toNat?; let pid ← pid.toNat?; let ver ← ver.toNat?; let cver ← cver.toNat?
+    let user ← strOfHex user; let token ← strOfHex token; let main ← strOfHex main; let special ← strOfHex special
+    let time ← time.toNat?; let ticket ← fromHex ticket
+    let p7 ← p7.toNat?; let p1 ← p1.toNat?; let p2 ← p2.toNat?; let p3 ← p3.toNat?
+    let minor := Wire.negotiatedMinor kind cmin smin
+    let c := Wire.rmcSettings minor { structHeader := hdr != 0, pidSize := pid, version := ver, clientVersion := cver }
+    let be := Wire.reqBackendLogin c user token
+    pure (" ".intercalate [
+      s!"minor={minor}", "hdr=" ++ (if c.structHeader then "1" else "0"), s!"backend={be.1}:" ++ showEx be.2,
+      "loginex=" ++ showEx (Wire.reqLoginEx c user token), "ticket=" ++ showEx (Wire.reqTicket c p1 p2), "getname=" ++ showEx (Wire.reqGetName c p3),
+      "resplogin=" ++ showEx (Wire.respLogin c 65537 p7 ticket main special [1, 2] time "srv"), "respticket=" ++ showEx (Wire.respTicket 65537 ticket)])
+  | _ => Option.none
+
 def step2 (st : St) (line : String) : St × String :=
   match words line with
   | "objseq" :: ops => (st, runObjSeq st ops)
+  | "wire" :: toks => (st, (runWire toks).getD "bad-op")
   | _ => step st line
 
 def main : IO Unit := runState ({} : St) step2
